@@ -23,7 +23,7 @@ META = {
                     "UDP part is reported as skipped (not held) if loopback sockets cannot be bound"],
 }
 REQUIRED_REACH = ['interfaces/comms_core.py:Comms.getData', 'interfaces/comms_core.py:Comms.spin', 'interfaces/comms_core.py:Comms.setForwardData', 'interfaces/comms_core.py:Comms.deleteForwardingRule', 'interfaces/comms_core.py:Comms.setDataSink', 'interfaces/comms_core.py:Comms.setDataSource', 'interfaces/comms_core.py:Comms.sendData']
-REQUIRED_CLAUSES = ["registration.return", "get.deliveries", "nodata.nothing", "spin.sources_once", "spin.deliveries", "fault.injected",
+REQUIRED_CLAUSES = ["registration.return", "get.deliveries", "nodata.nothing", "spin.sources_once", "spin.polls", "spin.deliveries", "fault.injected",
                     "exhaustive.sequences"]
 
 
@@ -273,6 +273,14 @@ def step(w, op, ctx, hist, step_no):
             return bad("spin.sources_once", "spin/source_value_" + ("lost" if not cands else "duplicated" if len(cands) > 1 else "misrouted"), value=c[2])
         rest.remove(cands[0])
     # sends per (endpoint, source) pair must be k each
+    # every endpoint that has a sink or a destination registered is read at least once per spin iteration, whatever else is
+    # registered on it (a source, say): otherwise a message waiting there is never received, so never delivered
+    ctx.clause("spin.polls")
+    for nme in w.names:
+        if w.model.fwd.get(nme) or w.model.sinks.get(nme):
+            reads = sum(1 for r in recvs if r[1] == nme)
+            if reads < k:
+                return bad("spin.polls", "spin/listening_endpoint_not_read" + ("/has_source" if w.model.sources.get(nme) else ""), endpoint=nme, reads=reads, k=k)
     ctx.clause("spin.deliveries")
     for r in recvs:
         if r[2] is None:
